@@ -1,4 +1,4 @@
-import TinsModel.Reassembly.Independence
+import TinsModel.Reassembly.PolicyRefine
 /-
   Property C08 — IPv4 fragment reassembly reconstructs the original datagram.
 
@@ -30,11 +30,13 @@ theorem complete_iff_all {d : DG} (w : d.wf) (e : Ep) :
   rw [isComplete_abs w e]
   simp [DG.complete, List.all_eq_true]
 
-/-- `reassembled_payload`: when every piece is held, the contiguity re-check of `allocate_pdu` passes and the
-    concatenated buffer is the original payload, byte for byte. -/
-theorem reassembled_payload {d : DG} (w : d.wf) (e : Ep) (hall : ∀ q ∈ d.pieces, q ∈ e.got) :
+/-- `reassembled_payload`: when every piece is held (and the remembered first header is as long as the datagram's:
+    `EpInv`, an invariant of every reachable state), the size check and the contiguity re-check of `allocate_pdu`
+    pass and the concatenated buffer is the original payload, byte for byte. -/
+theorem reassembled_payload {d : DG} (w : d.wf) (e : Ep) (hall : ∀ q ∈ d.pieces, q ∈ e.got)
+    (hfirst : hdrSize (e.first.getD {}) = hdrSize d.hdr) :
     allocBuf (absStream d e) = some d.payload :=
-  allocBuf_abs w e (by simpa [DG.complete, List.all_eq_true] using hall)
+  allocBuf_abs w e (by simpa [DG.complete, List.all_eq_true] using hall) hfirst
 
 /-! ### the reassembler over whole capture histories -/
 
@@ -167,6 +169,7 @@ theorem no_datagram_from_holes (parse : UpperParse) (r r' : Streams) (p p' : Pkt
           · simp at h
           · rename_i inner hparse
             simp only [Prod.mk.injEq] at h
+            have hbuf := ((allocBuf_some_iff _ buf).mp hbuf).2
             have hb := (allocLoop_some_iff 0 [] _ buf).mp hbuf
             refine ⟨_, hs', hb.1, ?_⟩
             rw [← h.2.1]
@@ -174,6 +177,174 @@ theorem no_datagram_from_holes (parse : UpperParse) (r r' : Streams) (p p' : Pkt
       · simp at h
     · simp at h
   · simp at h
+
+/-! ### ARBITRARY sessions: any packets (overlapping, conflicting, lying), any order
+
+  `Op` = one call on the reassembler (`process` on any packet, `clear_streams`, `remove_stream`); `reach parse ops` = the
+  stream table after session `ops` on a fresh reassembler; `Arr ops q` = fragment packet `q` arrived during `ops`;
+  `streamAfter r p` = the `IPv4Stream` of `p`'s key after `streams_[key]` and `add_fragment`; `Tiles a b frags` = the
+  stored fragments cover `[a, b)` exactly, no gap and no overlap; `ExactCover A k s` = `Tiles 0 total`, every stored
+  fragment / the fragment ending at `total` (more-fragments clear) / the remembered first header come from packets that
+  arrived with key `k`, and header + total ≤ 65535 (TinsModel/Reassembly/{AllHistories,Safety,Lifetime}.lean). -/
+
+/-- **process_all_cases.**  After every session and on every packet `process` goes one of five ways (`Way`):
+    not a fragment → NOT_FRAGMENTED, nothing touched; stored / ignored → FRAGMENTED, packet untouched, stream open;
+    byte counts match without an exact cover (or beyond 65535 bytes) → the `corrupt` path: FRAGMENTED, stream erased,
+    packet left with the stored first header and no payload; exact cover but the upper-layer parser rejects the
+    concatenation → `malformed_packet`, stream erased, packet untouched; exact cover and parsed → REASSEMBLED, stream
+    erased.  There is no other status, no other exception and no other effect on the table. -/
+theorem process_all_cases (parse : UpperParse) (ops : List Op) (p : Pkt) :
+    Way parse ops p (process parse (reach parse ops) p) :=
+  process_way parse ops p
+
+/-- **never_from_incomplete, full strength.**  Whatever was fed before (overlapping fragments, several lengths at one
+    offset, several "last" fragments, a last fragment that ends before data already held, offsets + lengths beyond
+    65535 …): when `process` reports REASSEMBLED, the fragments it used cover `[0, total)` exactly — no gap, no overlap —,
+    each is the (offset, payload) of a packet that arrived with this key, the one ending at `total` arrived without
+    more-fragments, header + total ≤ 65535, the packet's payload is the parse of exactly their concatenation (`total`
+    bytes), its header is the header of the arrived packet stored at offset 0 with offset and more-fragments cleared,
+    and the stream is gone. -/
+theorem never_from_incomplete_all (parse : UpperParse) (ops : List Op) (p p' : Pkt) (r' : Streams)
+    (h : process parse (reach parse ops) p = (r', p', .reassembled)) :
+    ∃ s : Stream, s = streamAfter (reach parse ops) p ∧
+      ExactCover (Arr (ops ++ [.pkt p])) (makeKey p.hdr) s ∧ s.concat.length = s.total ∧
+      parse p.hdr.proto s.concat = some p'.inner ∧
+      p'.hdr = { s.first with off := 0, flags := clearMF s.first.flags } ∧ p'.hasIP = p.hasIP ∧
+      alLookup r' (makeKey p.hdr) = none := by
+  have hw := process_way parse ops p
+  rw [h] at hw
+  cases hw with
+  | done hf hx hlen inner hp => exact ⟨_, rfl, hx, hlen, hp, rfl, rfl, alLookup_erase_self _ _⟩
+
+/-- what "exact cover" means byte by byte: every stored fragment's bytes sit at its offset in the reassembled payload,
+    and no two stored fragments share a byte position -/
+theorem reassembled_bytes {A : Pkt → Prop} {k : Key} {s : Stream} (hx : ExactCover A k s) :
+    (∀ f ∈ s.frags, ∀ j, j < f.payload.length → s.concat[f.off + j]? = f.payload[j]?) ∧
+    s.frags.Pairwise (fun f g => f.off + f.payload.length ≤ g.off) :=
+  ⟨fun f hf j hj => by simpa [Stream.concat] using hx.tiles.bytes f hf j hj, hx.tiles.disjoint⟩
+
+/-- **the only exception** is the upper-layer parser's, and only on an exact cover: `malformed_packet` leaves
+    `process` exactly when the fragments cover `[0, total)` exactly and `pdu_from_flag` rejects their concatenation;
+    the packet is untouched and the stream is gone (fix KF-C08-5). -/
+theorem throws_only_parser_exception (parse : UpperParse) (ops : List Op) (p p' : Pkt) (r' : Streams)
+    (h : process parse (reach parse ops) p = (r', p', .throwMalformed)) :
+    ExactCover (Arr (ops ++ [.pkt p])) (makeKey p.hdr) (streamAfter (reach parse ops) p) ∧
+    parse p.hdr.proto (streamAfter (reach parse ops) p).concat = none ∧ p' = p ∧
+    alLookup r' (makeKey p.hdr) = none := by
+  have hw := process_way parse ops p
+  rw [h] at hw
+  cases hw with
+  | parserThrows hf hx hlen hp => exact ⟨hx, hp, rfl, alLookup_erase_self _ _⟩
+
+/-- **the `corrupt` path.**  FRAGMENTED is reported in exactly two situations: the packet is untouched and its stream
+    is open (stored or ignored), or — `corrupt` — `is_complete` held but the stored fragments do not cover `[0, total)`
+    exactly (or header + total > 65535): then the stream is erased and the packet is left with the header of the
+    arrived packet stored at offset 0 and **no payload**. -/
+theorem fragmented_cases (parse : UpperParse) (ops : List Op) (p p' : Pkt) (r' : Streams)
+    (h : process parse (reach parse ops) p = (r', p', .fragmented)) :
+    (p' = p ∧ isComplete (streamAfter (reach parse ops) p) = false ∧
+      alLookup r' (makeKey p.hdr) = some (streamAfter (reach parse ops) p)) ∨
+    (isComplete (streamAfter (reach parse ops) p) = true ∧
+      (¬ Tiles 0 (streamAfter (reach parse ops) p).total (streamAfter (reach parse ops) p).frags ∨
+        hdrSize (streamAfter (reach parse ops) p).first + (streamAfter (reach parse ops) p).total > 65535) ∧
+      (∃ q, Arr (ops ++ [.pkt p]) q ∧ makeKey q.hdr = makeKey p.hdr ∧ extractOffset q.hdr = 0 ∧
+        p' = { p with hdr := q.hdr, inner := .none }) ∧
+      alLookup r' (makeKey p.hdr) = none) := by
+  have hw := process_way parse ops p
+  rw [h] at hw
+  cases hw with
+  | stored hf hc => exact .inl ⟨rfl, hc, alLookup_put_self _ _ _⟩
+  | corrupt hf hc hbad hfirst =>
+    obtain ⟨q, hq, hk, ho, hfi⟩ := hfirst
+    exact .inr ⟨hc, hbad, ⟨q, hq, hk, ho, by rw [hfi]⟩, alLookup_erase_self _ _⟩
+
+/-- **no fault.**  In every reachable state: the fragment vector `is_complete` looks into is never empty
+    (`fragments_.begin()` is dereferenceable), and whenever `is_complete` holds the `first_fragment_` that
+    `allocate_pdu` / `process` read was assigned from a packet that arrived with this key at offset 0. -/
+theorem no_fault (parse : UpperParse) (ops : List Op) (p : Pkt) (hf : isFragPkt p = true) :
+    (streamAfter (reach parse ops) p).frags ≠ [] ∧
+    (isComplete (streamAfter (reach parse ops) p) = true →
+      ∃ q, Arr (ops ++ [.pkt p]) q ∧ makeKey q.hdr = makeKey p.hdr ∧ extractOffset q.hdr = 0 ∧
+        (streamAfter (reach parse ops) p).first = q.hdr) := by
+  refine ⟨addFragment_frags_ne _ _ _, fun hc => ?_⟩
+  have hs := streamAfter_SWf (fun q (hq : Arr ops q) => hq.snoc (.pkt p)) (reach_TWf parse ops)
+    (show Arr (ops ++ [.pkt p]) p from ⟨by simp, hf⟩)
+  obtain ⟨q, hq, hk, ho, _, hfi⟩ := complete_has_first hs hc
+  exact ⟨q, hq, hk, ho, hfi⟩
+
+/-- every stream of every reachable table: one per key, fragments strictly sorted by offset (so no two share an
+    offset), never empty, byte count exact, contents arrived with that key, and **not complete** -/
+theorem reachable_table (parse : UpperParse) (ops : List Op) : TWf (Arr ops) (reach parse ops) :=
+  reach_TWf parse ops
+
+/-- fragments of different lengths (or contents) at an offset already held: the later one is ignored, whatever it says -/
+theorem same_offset_ignored (parse : UpperParse) (ops : List Op) (k : Key) (s : Stream)
+    (hs : alLookup (reach parse ops) k = some s) (h : Hdr) (payload : Bytes)
+    (hdup : ∃ g ∈ s.frags, g.off = extractOffset h) : addFragment s h payload = s := by
+  have hw := ((reach_TWf parse ops).wf _ (alLookup_mem hs)).1
+  rw [addFragment_eq, (insFrag_none_iff hw.sorted).mpr hdup]
+
+/-- **interleave_independent, full strength**: any number of keys, arbitrary packets.  Status and packet left behind
+    for `p` are what they would be had only the calls that touch `p`'s own key been made (fragment packets with that
+    key, `clear_streams`, `remove_stream`); so is the stream of that key. -/
+theorem interleave_independent_all (parse : UpperParse) (ops : List Op) (p : Pkt) :
+    (process parse (reach parse ops) p).2 = (process parse (reach parse (projKey (makeKey p.hdr) ops)) p).2 ∧
+    alLookup (reach parse ops) (makeKey p.hdr) = alLookup (reach parse (projKey (makeKey p.hdr) ops)) (makeKey p.hdr) :=
+  ⟨process_snd_of_lookup parse p (reach_lookup_proj parse _ ops), reach_lookup_proj parse _ ops⟩
+
+/-- **model_refines_policy.**  For EVERY session — arbitrary packets, `clear_streams`, `remove_stream`, any order — the
+    code-shaped model of `IPv4Reassembler` (sorted fragment vector, running byte counters, contiguity re-check) reports
+    exactly what the policy reference of TinsModel/Reassembly/Policy.lean reports (per key: a fragment is accepted
+    unless its offset is taken; TDL = end of the most recently accepted fragment without more-fragments; completion is
+    attempted when the accepted bytes equal TDL and offset 0 is held; the attempt succeeds iff the accepted fragments
+    sorted by offset cover `[0, TDL)` exactly and header + TDL ≤ 65535, otherwise the set is dropped): same status, same
+    packet left behind, same number of open streams after every call, and the stream table is the image of the
+    reference's state. -/
+theorem model_refines_policy (parse : UpperParse) (ops : List Op) :
+    sessionOut parse [] ops = polOut parse [] ops ∧ reach parse ops = absPState (polReach parse ops) :=
+  session_absP parse ops [] [] (by intro x hx; simp at hx) rfl
+
+/-! ### stream table lifetime -/
+
+/-- after ANY session there is at most one open stream per distinct key carried by a fragment packet of the session -/
+theorem live_streams_le_distinct_keys (parse : UpperParse) (ops : List Op) :
+    (reach parse ops).length ≤ (distinct (fragKeys ops)).length :=
+  live_le_distinct_keys parse ops
+
+/-- inside the property's hypothesis the open streams are exactly the datagrams that have, since their last completion
+    (or since the start), received at least one but not all of their pieces: datagrams still incomplete, and datagrams
+    already completed of which a **late duplicate** arrived -/
+theorem live_streams_exact (parse : UpperParse) (F : List DG) (hF : Family F) (evs : List Ev)
+    (hev : ∀ e ∈ evs, e.ok F) :
+    ∃ σ : RefState, finalWith (modelStep parse) [] evs = absState σ ∧ (σ.map (·.1)).Nodup ∧
+      ∀ x ∈ σ, x.1 ∈ F ∧ x.2.got ≠ [] ∧ x.1.complete x.2 = false ∧ (∀ q ∈ x.2.got, ∃ t, Ev.frag x.1 q t ∈ evs) := by
+  obtain ⟨_, hfin, hinv⟩ := run_refines hF parse evs hev [] (SInv_nil F)
+  have hr := final_RInv parse evs [] RInv_nil
+  have ha := arrived_final parse evs
+  exact ⟨_, hfin, hr.1, fun x hx => ⟨(hinv x hx).1, (hr.2 x hx).1, (hr.2 x hx).2, (ha x hx).1⟩⟩
+
+/-- **late_duplicate_leaks** (the exact content of known finding KF-C08-1): a copy of a piece of a datagram that has no
+    open reassembly — e.g. a duplicate that arrives after the datagram was completed — opens a stream holding that one
+    piece, and after ANY continuation that does not concern this datagram (no fragment of it, no `clear_streams`, no
+    `remove_stream` of its identification and addresses) the stream is still there.  The interface has no expiry. -/
+theorem late_duplicate_leaks (parse : UpperParse) (F : List DG) (hF : Family F) (pre : List Ev)
+    (hpre : ∀ e ∈ pre, e.ok F) (d : DG) (hd : d ∈ F) (q : Nat × Nat) (hq : q ∈ d.pieces) (ttl : Nat)
+    (hclosed : alLookup (finalWith (refStep parse) [] pre) d = none)
+    (post : List Ev) (hpost : ∀ e ∈ post, e.ok F ∧ leavesAlone d e = true) :
+    alLookup (finalWith (modelStep parse) [] (pre ++ Ev.frag d q ttl :: post)) (makeKey d.hdr) =
+      some (absStream d (({} : Ep).add q (fragPkt d q ttl).hdr)) ∧
+    1 ≤ (finalWith (modelStep parse) [] (pre ++ Ev.frag d q ttl :: post)).length := by
+  have h := leak_persists hF parse pre hpre d hd q hq ttl hclosed post hpost
+  refine ⟨h, ?_⟩
+  have := alLookup_mem h
+  exact List.length_pos_of_mem this
+
+/-- the hypothesis `hclosed` of `late_duplicate_leaks` holds right after the event that completed the datagram -/
+theorem closed_after_completion' (parse : UpperParse) (pre : List Ev) (d : DG) (p : Nat × Nat) (ttl : Nat)
+    (h : d.complete (((alLookup (finalWith (refStep parse) [] pre) d).getD {}).add p (fragPkt d p ttl).hdr) = true) :
+    alLookup (finalWith (refStep parse) [] (pre ++ [.frag d p ttl])) d = none := by
+  rw [finalWith_append]
+  exact closed_after_completion parse _ d p ttl h
 
 /-! ### extension beyond the property's hypothesis: a key re-used by a later datagram (known finding KF-C08-1) -/
 
@@ -249,5 +420,66 @@ example : ∀ e ∈ kfEvs, e.wfOnly := by decide
 example : seqOK upperParseConcrete {} kfEvs = true := by decide
 example : keyReused exEvs = false := by decide
 example : exA.wf ∧ exA.complete { got := [(8, 8), (0, 8), (16, 8)] } = true := by decide
+
+/-! ### non-vacuity of the arbitrary-session theorems: hostile sessions on one key (id 7, 1 → 2, protocol 253) -/
+
+/-- a fragment packet: offset in bytes, more-fragments bit, payload -/
+def hp (off : Nat) (mf : Bool) (bytes : List Nat) : Pkt :=
+  { hasIP := true, hdr := { id := 7, src := 1, dst := 2, proto := 253, off := off / 8, flags := if mf then 1 else 0 },
+    inner := .raw (bytes.map Nat.toUInt8) }
+
+def statuses (ops : List Op) : List (Option Out × Nat) :=
+  (sessionOut upperParseConcrete [] ops).map (fun x => (x.1.map (·.1), x.2))
+
+def b8 (n : Nat) : List Nat := (List.range 8).map (· + n)
+
+/-- overlapping pair `[0,16)` + `[8,24)` + last `[24,32)`: the byte count (40) never equals the total (32): never reassembled -/
+example : statuses [.pkt (hp 0 true (b8 0 ++ b8 8)), .pkt (hp 8 true (b8 50 ++ b8 60)), .pkt (hp 24 false (b8 24))] =
+    [(some .fragmented, 1), (some .fragmented, 1), (some .fragmented, 1)] := by decide
+/-- an overlap that hides a hole in the byte count (`[0,16)`, `[8,16)`, last `[24,32)`: 32 bytes, total 32, hole at
+    `[16,24)`): `is_complete` holds, the `corrupt` path erases the stream and reports FRAGMENTED -/
+example : statuses [.pkt (hp 0 true (b8 0 ++ b8 8)), .pkt (hp 8 true (b8 50)), .pkt (hp 24 false (b8 24))] =
+    [(some .fragmented, 1), (some .fragmented, 1), (some .fragmented, 0)] := by decide
+/-- same offset, different lengths: the second is ignored, the datagram completes with the first one's bytes -/
+example : statuses [.pkt (hp 0 true (b8 0)), .pkt (hp 0 true (b8 90 ++ b8 98)), .pkt (hp 8 false (b8 8))] =
+    [(some .fragmented, 1), (some .fragmented, 1), (some .reassembled, 0)] := by decide
+/-- two different last fragments (`[8,16)` and `[16,24)` both without more-fragments): the later one sets the total;
+    the set is an exact cover of `[0,24)` and is reassembled -/
+example : statuses [.pkt (hp 8 false (b8 8)), .pkt (hp 16 false (b8 16)), .pkt (hp 0 true (b8 0))] =
+    [(some .fragmented, 1), (some .fragmented, 1), (some .reassembled, 0)] := by decide
+/-- the same three in another order: the total stays at 16 while 24 bytes are held — never reassembled -/
+example : statuses [.pkt (hp 16 false (b8 16)), .pkt (hp 8 false (b8 8)), .pkt (hp 0 true (b8 0))] =
+    [(some .fragmented, 1), (some .fragmented, 1), (some .fragmented, 1)] := by decide
+/-- a last fragment that ends before data already held, and the byte count matches by accident (`[0,8)`, `[24,32)`,
+    last `[16,24)`: 24 bytes, total 24): `corrupt` -/
+example : statuses [.pkt (hp 0 true (b8 0)), .pkt (hp 24 true (b8 24)), .pkt (hp 16 false (b8 16))] =
+    [(some .fragmented, 1), (some .fragmented, 1), (some .fragmented, 0)] := by decide
+
+/-- `model_refines_policy`: the policy reference on two conflicting last fragments -/
+example : (polOut upperParseConcrete [] [.pkt (hp 8 false (b8 8)), .pkt (hp 16 false (b8 16)), .pkt (hp 0 true (b8 0))]).map
+    (fun x => (x.1.map (·.1), x.2)) = [(some .fragmented, 1), (some .fragmented, 1), (some .reassembled, 0)] := by decide
+/-- `never_from_incomplete_all` applies: a hostile session that does end in REASSEMBLED -/
+example : (process upperParseConcrete
+      (reach upperParseConcrete [.pkt (hp 8 false (b8 8)), .pkt (hp 16 false (b8 16)), .pkt (hp 8 true (b8 70))])
+      (hp 0 true (b8 0))).2.2 = .reassembled := by decide
+/-- `fragmented_cases`, second alternative (the `corrupt` path) -/
+example : (process upperParseConcrete
+      (reach upperParseConcrete [.pkt (hp 0 true (b8 0 ++ b8 8)), .pkt (hp 8 true (b8 50))])
+      (hp 24 false (b8 24))).2 = ({ hp 0 true [] with inner := .none }, .fragmented) := by decide
+/-- `throws_only_parser_exception`: 16 bytes of "TCP" -/
+def tcpFrag (off : Nat) (mf : Bool) (bytes : List Nat) : Pkt :=
+  { hp off mf bytes with hdr := { (hp off mf []).hdr with proto := 6 } }
+example : (process upperParseConcrete (reach upperParseConcrete [.pkt (tcpFrag 0 true (b8 0))])
+      (tcpFrag 8 false (b8 8))).2.2 = .throwMalformed := by decide
+/-- `same_offset_ignored` / `no_fault` / `interleave_independent_all`: a reachable table with a stream -/
+example : (alLookup (reach upperParseConcrete [.pkt (hp 8 true (b8 8))]) (makeKey (hp 0 true []).hdr)).map
+    (fun s => s.frags.map (·.off)) = some [extractOffset (hp 8 true []).hdr] := by decide
+example : isFragPkt (hp 8 true (b8 8)) = true := by decide
+/-- `late_duplicate_leaks`: `exA` is completed by the sixth event of `exEvs`; its seventh event is a late duplicate -/
+example : alLookup (finalWith (refStep upperParseConcrete) [] (exEvs.take 6)) exA = none ∧
+    (∀ e ∈ exEvs.drop 7, e.ok exF ∧ leavesAlone exA e = true) ∧ (8, 8) ∈ exA.pieces := by decide
+/-- `live_streams_le_distinct_keys` is tight -/
+example : (reach upperParseConcrete [.pkt (hp 8 true (b8 8)), .pkt (hp 16 true (b8 8))]).length = 1 ∧
+    (distinct (fragKeys [.pkt (hp 8 true (b8 8)), .pkt (hp 16 true (b8 8))])).length = 1 := by decide
 
 end Tins.Props.C08
